@@ -43,11 +43,13 @@ def plan(tier):
         p += [(k, U[k], n, None) for k in U for n in range(1, 6)]
         p += [(k, FAMILY[k], n, None) for k in ("verif_u6", "verif_u6_sub_div_pow") for n in range(1, 5)]
     else:
-        p += [(k, S[k], n, None) for k in S for n in range(1, 6)]
-        p += [(k, S[k], 6, None) for k in ("core_maths", "ext_maths", "base_e_maths")]
+        p += [(k, S[k], n, None) for k in S for n in range(1, 7)]
         p += [(k, U[k], n, None) for k in U for n in range(1, 6)]
         p += [(k, FAMILY[k], n, None) for k in FAMILY for n in range(1, 6)]
-        p += [("core_maths", S["core_maths"], 7, 4000)]
+        # above the exhaustive range: core_maths n=7 complete, seeded random subsets of TLC's trees elsewhere
+        p += [("core_maths", S["core_maths"], 7, None), ("ext_maths", S["ext_maths"], 7, 6000)]
+        p += [(k, U[k], 6, 3000) for k in U]
+        p += [(k, FAMILY[k], 6, 5000) for k in ("verif_u6", "verif_u6_sub_div_pow")]
     return p
 
 
